@@ -117,6 +117,22 @@ def run(ctx):
     phases["implementation"] = round(time.time() - t1, 1)
     t1 = time.time()
 
+    # ---- program corpus (regressions of the per-variant copy: node kinds, comptime objects)
+    progs = sorted(str(p) for p in (ctx.dir / "corpus").glob("prog_*.py"))
+    prog_rows = json.loads(ctx.impl("impl_programs.py", progs)) if progs else {}
+    prog_total, prog_bad = 0, 0
+    for fname, rows in sorted(prog_rows.items()):
+        for fn, how, exp, obs, detail in rows:
+            prog_total += 1
+            if exp != obs:
+                prog_bad += 1
+                if prog_bad <= 3:
+                    ctx.report(f"program:{fname}:{fn}:{how}", "counterexample",
+                               "overloaded call behaves as the direct call to the first accepting variant (program corpus)",
+                               {"program": f"props/C15/corpus/{fname}.py", "function": fn, "how": how, "expected": exp,
+                                "observed": obs, "detail": detail,
+                                "replay": f"cd /tmp && VERIF_REPO=/repo PYTHONPATH=/verif/tools:/repo/guppylang/src:/repo/guppylang-internals/src /venv/bin/python -c \"import repo_shim, importlib.util as u; s=u.spec_from_file_location('m','/verif/props/C15/corpus/{fname}.py'); m=u.module_from_spec(s); s.loader.exec_module(m); m.{fn}.{how}()\""})
+
     # ---- model side
     model = None
     if (vlib.COQ / "C15" / "Overload.vo").exists():
@@ -227,7 +243,7 @@ def run(ctx):
         evaluations=n_eval, distinct_nontrivial=fallthrough + sensitive,
         rule="one evaluation = one check() of a generated function (overloaded call or direct call to one variant); non-trivial = the least accepting variant is not the first one (fall-through past a failing variant) or the case's outcome depends on whether failed attempts mutate the argument nodes (model with copies_args=false differs from model with copies_args=true)",
         traces_validated_against_impl=agree, model_mismatches=len(mismatches), spec_side_failures=len(spec_fail),
-        cases=len(cases), monomorphic_cases=len(mono), generic_cases_spec_side_only=len(generic), corpus_cases=len(corpus),
+        cases=len(cases), monomorphic_cases=len(mono), generic_cases_spec_side_only=len(generic), corpus_cases=len(corpus), corpus_program_checks=prog_total, corpus_program_failures=prog_bad,
         mutation_sensitive_cases=sensitive, fallthrough_cases=fallthrough, rejected_cases=rejected, crashes=crashes,
         least_accepting_variant_histogram={str(k): v for k, v in sorted(selected_hist.items())},
         position_histogram=pos_hist, arity_histogram={str(k): v for k, v in sorted(arity_hist.items())},
